@@ -803,7 +803,18 @@ def check_C31(res):
     return "(M) every reload history over nested zones p, c.p, d.c.p, q (any configured subset in any order, any subset loading): the catalog built by load_impl equals the declarative expectation and failures are independent; (V) histories of 2-6 steps against the running daemon built from /repo: per step a random configured subset in random order, each file rewritten valid / with a syntax error / valid syntax but failing validation (no apex NS) / deleted / left unchanged, SIGHUP, then TXT queries for every universe zone and a name below it; raw responses decoded and judged in TLC"
 
 
+def check_C32(res):
+    q = res.tier == "quick"
+    run_mc(res, "MC_Snapshot/impl", "MC_Snapshot.tla", "MC_Snapshot_impl.cfg", workers=4)
+    run_mc(res, "MC_Snapshot/mutant (shared pointer re-read per section)", "MC_Snapshot.tla", "MC_Snapshot_mutant.cfg", workers=2, expect_violation="OneSnapshot")
+    trace_stage(res, ["snapshot", res.seed, 3 if q else 120, 100 if q else 250], "TraceSnapshot", "snapshot", ["C32"], session_start=("Reset",), nshards=min(NSHARDS, 3 if q else NSHARDS))
+    res.assumptions += ["one replacement at a time (as in the daemon, which has a single reloader); catalog and key replacements may overlap each other and any number of handlers",
+                        "HMAC-SHA256 computed by the JDK inside TLC (trusted primitive)"]
+    return "(M) every interleaving of 2 handlers (snapshot, three sections) and a swapper over 3 generations: one snapshot per response, freshness, and soundness of the window rule used by the trace specification; (V) sessions of 4 query threads x n requests (7 query shapes whose complete answers carry the generation in every section, 40% TSIG-signed with the key generation the client believes current, 30% EDNS, both transports) while a swapper thread replaces catalogs and key sets every 0-400 us and the sink additionally forces a replacement exactly between a handler's snapshot and its use (15% of SnapCatalog/SnapKeys hooks); each response must equal Server!Respond for one (catalog generation, key generation) pair of the handler's windows, MACs recomputed in TLC; the last request of a session, issued after all replacements returned, has singleton windows"
+
+
 CHECKS = {
+    "C32": check_C32,
     "C31": check_C31,
     "C30": check_C30,
     "C29": check_C29,
